@@ -503,6 +503,7 @@ func extractC15(c *ctx) (Facts, error) {
 	}
 
 	c15BusFacts(c, facts, note)
+	c15ConstructorFacts(c, facts, note)
 	c15MarshalerFacts(c, facts, note)
 	c15CtxFacts(c, facts, note)
 	return facts, firstErr
@@ -754,4 +755,51 @@ func c15CtxFacts(c *ctx, facts Facts, note func(error)) {
 	})
 	facts["ctx_with_original_wraps_parent_with_message"] = wok
 	facts["ctx_same_key_written_and_read"] = wkey != "" && wkey == rkey
+}
+
+// c15ConstructorFacts: the non-deprecated constructors keep the configuration they are given – no field of `config` is
+// assigned (wrapped, cached, replaced) between validation and the struct literal that stores it; only setDefaults and
+// Validate are called on it.
+func c15ConstructorFacts(c *ctx, facts Facts, note func(error)) {
+	for _, x := range []struct{ file, fn, key string }{
+		{"event_bus.go", "NewEventBusWithConfig", "event_bus"},
+		{"command_bus.go", "NewCommandBusWithConfig", "command_bus"},
+		{"command_processor.go", "NewCommandProcessorWithConfig", "command_processor"},
+		{"event_processor.go", "NewEventProcessorWithConfig", "event_processor"},
+		{"event_processor_group.go", "NewEventGroupProcessorWithConfig", "event_group_processor"},
+	} {
+		fd, err := c.fn(c15Dir+x.file, "", x.fn)
+		if err != nil {
+			note(err)
+			continue
+		}
+		cfg := c15ParamName(fd.Type.Params, 1)
+		assigned := 0
+		var calls []string
+		ast.Inspect(fd.Body, func(n ast.Node) bool {
+			switch st := n.(type) {
+			case *ast.AssignStmt:
+				for _, l := range st.Lhs {
+					t := c.src(l)
+					if t == cfg || strings.HasPrefix(t, cfg+".") {
+						assigned++
+					}
+				}
+			case *ast.CallExpr:
+				f := c.src(st.Fun)
+				if strings.HasPrefix(f, cfg+".") {
+					calls = append(calls, strings.TrimPrefix(f, cfg+"."))
+				}
+				for _, a := range st.Args {
+					// the configuration (or its address) handed to some other function
+					if t := c.src(a); t == cfg || t == "&"+cfg {
+						calls = append(calls, "passed to "+f)
+					}
+				}
+			}
+			return true
+		})
+		facts[x.key+"_constructor_config_assignments"] = assigned
+		facts[x.key+"_constructor_calls_on_config"] = calls
+	}
 }
